@@ -17,7 +17,8 @@ from ..vlib.report import MachineryError, Report
 from . import c12
 
 util.ensure_repo_importable()
-from strengths import kinetics, rdscript_from_dict, simulate_script  # noqa: E402
+from strengths import RDGridSpace, kinetics, rdscript_from_dict, simulate_script  # noqa: E402
+from strengths.coarsegrain import coarsegrain_system  # noqa: E402
 
 PROP = "C04"
 _lib = None
@@ -43,7 +44,25 @@ def _run(d):
             data = [float(v) for v in out.data.convert(us0).value]
             t = [float(v) for v in out.t.convert(us0).value]
             su = out.data.units.sys
-            msg = pickle.dumps(("ok", {"x0": x0, "dxdt": dx, "data": data, "t": t,
+            cg = None
+            if isinstance(sc.system.space, RDGridSpace) and not any(sc.system.space.get_boundary_conditions()[a] == "periodical" for a in "xyz"):
+                # the coarse-graining route is one more way of running the same description (identity map, and all retained
+                # cells of one environment merged pairwise where the map stays valid)
+                n = sc.system.space.size()
+                env = list(sc.system.space.cell_env)
+                pair, groups = [], {}
+                for i in range(n):
+                    key = (env[i], i // 2)
+                    groups.setdefault(key, len(groups))
+                    pair.append(groups[key])
+                cg = {}
+                for name, cmap in (("identity", list(range(n))), ("pairs", pair)):
+                    cs = coarsegrain_system(sc.system, cmap)
+                    o2 = simulate_script(sc, build.make_engine("euler", lib=_lib), cgmap=cmap)
+                    cg[name] = {"x0": [float(v) for v in cs.state.convert(us0).value],
+                                "vol": [float(v) for v in cs.space.get_cell_vol_array().convert(us0).value],
+                                "data": [float(v) for v in o2.data.convert(us0).value]}
+            msg = pickle.dumps(("ok", {"x0": x0, "dxdt": dx, "data": data, "t": t, "cg": cg,
                                        "out_units": [su["space"], su["time"], su["quantity"]]}))
         except BaseException as e:  # noqa
             msg = pickle.dumps(("exc", repr(e)[:300]))
@@ -82,7 +101,9 @@ def run(tier, selftest=False, only=None):
                 "the effective system the specification names, or explicit unit strings in any system) must give the same initial "
                 "state, the same compute_dstatedt and the same Euler trajectory in common units (rtol 1e-9); the script's own "
                 "units system (= the engine's and the output's) varies with the tree; thorough: every one of the 1100 systems at "
-                "every single level; distinct = distinct (model, tree, systems)")
+                "every single level; grid descriptions with reflecting boundaries are also run through the coarse-graining route "
+                "(identity map and a pairwise merge): coarse initial state, node volumes and un-coarse-grained Euler trajectory "
+                "must agree as well; distinct = distinct (model, tree, systems)")
     rep.assumptions = ["requested times and t_max sit at (k + 1/2) dt so that rounding of dt in another time unit cannot change "
                        "the number of steps", "models with reaction order <= 3 and small amounts: every unit system keeps all "
                        "intermediate values inside the binary64 range"]
@@ -147,6 +168,7 @@ def run(tier, selftest=False, only=None):
         nC, nS = m.ncells(), len(m.species)
         g = [float(Fr(*sp[0]["gross"][i][s])) for s in range(nS) for i in range(nC)]
         gross[mi] = (np.array(g), max(max(refs[mi]["x0"]) if refs[mi]["x0"] else 0.0, 1e-300))
+    ncg = 0
     for (kind, mi, decl, systems), d, r in zip(meta, jobs, res):
         if kind == "ref":
             continue
@@ -164,11 +186,24 @@ def run(tier, selftest=False, only=None):
                 rep.violation("units", "units:%s-differs" % what,
                               dict(tag, reference=ref[what][:12], got=got[what][:12], explicit_levels=levels))
                 break
+        if (ref["cg"] is None) != (got["cg"] is None):
+            rep.violation("units", "units:coarse-grained-route-availability", dict(tag, reference=ref["cg"] is not None))
+        elif ref["cg"]:
+            ncg += 1
+            for name in ref["cg"]:
+                for what, at in (("x0", 1e-12 * xmax), ("vol", None), ("data", 1e-9 * xmax)):
+                    if not close_vec(ref["cg"][name][what], got["cg"][name][what], atol=at):
+                        rep.violation("units", "units:coarse-grained-%s-differs" % what,
+                                      dict(tag, map=name, reference=ref["cg"][name][what][:12], got=got["cg"][name][what][:12]))
+                        break
         eff_script = decl["script"] if decl["script"] in ("S1", "S2") else "D"
         want_units = list(systems[eff_script]) if eff_script != "D" else list(serial.D)
         if got["out_units"][1] != want_units[1] or got["out_units"][2] != want_units[2]:
             rep.violation("units", "units:output-units", dict(tag, got=got["out_units"], want=want_units))
     rep.traces = len(jobs)
+    rep.extra["variants_also_run_through_coarse_graining"] = ncg
+    if ncg == 0:
+        raise MachineryError("no description went through the coarse-graining route")
     rep.sample({"reference_script": jobs[0], "variant_declarations": meta[1][2], "variant_systems": meta[1][3]})
     if selftest:
         a = refs[0]
